@@ -77,6 +77,15 @@ def vkey(pid, v):
     return '%s|%s|%s' % (pid, v['rule'], v['key'])
 
 
+def _plain(x):
+    """JSON-safe copy: dictionary keys become strings (a None key would break sort_keys)"""
+    if isinstance(x, dict):
+        return {str(k): _plain(v) for k, v in x.items()}
+    if isinstance(x, (list, tuple, set, frozenset)):
+        return [_plain(v) for v in (sorted(x, key=str) if isinstance(x, (set, frozenset)) else x)]
+    return x
+
+
 def finish(rep, level='other', explanation='', seed=0, extra_cov=None):
     """Print verdict lines, write evidence and replay files, return the exit code."""
     pid = rep.pid
@@ -155,7 +164,7 @@ def finish(rep, level='other', explanation='', seed=0, extra_cov=None):
     os.makedirs(edir, exist_ok=True)
     tmp = os.path.join(edir, '.%s.json.tmp%d' % (pid, os.getpid()))
     with open(tmp, 'w') as f:
-        json.dump(ev, f, indent=1, sort_keys=True)
+        json.dump(_plain(ev), f, indent=1, sort_keys=True)
         f.write('\n')
     os.replace(tmp, os.path.join(edir, pid + '.json'))
     total = sum(len(rep.rules[r]['instances']) for r in rep.order)
